@@ -11,6 +11,9 @@ GNext ==
         \/ \E c \in Clients : TxStart(c) /\ H("txstart", c, "")
         \/ \E c \in Clients : TxStep(c) /\ H("txstep", c, "")
         \/ \E c \in Clients : TxEnd(c) /\ H("txend", c, "")
+        \/ Pause /\ H("pause", "", "")
+        \/ Resume /\ H("resume", "", "")
+        \/ \E c \in Clients : Park(c) /\ H("park", c, "")
   \/ ReloadApply /\ UNCHANGED hist
 GSpec == Init /\ hist = <<>> /\ [][GNext]_gv
 Emit == (Len(hist) = Depth) => PrintT(<<"SCENARIO", ToJson(hist)>>)
